@@ -77,11 +77,15 @@ int main(int argc, char** argv) {
         GEOS_finish_r(h); return 0; }
     GridGen gen(r, h, &out);
     for (long i = 0; i < n; i++) {
-        gen.span = r.chance(70) ? 6 : (r.chance(50) ? 3 : 8);
+        gen.span = r.chance(60) ? 6 : (r.chance(40) ? 3 : 10);
         gen.setPartner(GGeom{}, 0);
         GGeom A = gen.geom(3, true, true);
         gen.setPartner(A, r.chance(80) ? 55 : 0);
-        GGeom B = r.chance(4) ? A : gen.geom(3, true, true);
+        GGeom B;
+        int mode = (int) r.below(100);
+        if (mode < 4) B = A;
+        else if (mode < 10 && gen.holeSwallower(A, B)) {}
+        else { if (mode < 22) gen.setPartnerInterior(A); B = gen.geom(3, true, true); }
         if (r.chance(50)) std::swap(A, B);
         Xform t = gen.xform();
         std::string ta = GridGen::geomTok(A, t), tb = GridGen::geomTok(B, t);
